@@ -14,12 +14,12 @@ PROPS["C05"] = {
     "units": [{
         "pkg": "curve/scalar", "configs": {"quick": ["default", "force32bit"], "thorough": ["default", "purego", "force32bit"]},
         "tests": {
-            "TestC05Arith": T(40000, 4000000),
-            "TestC05Decode": T(40000, 4000000),
+            "TestC05Arith": T(160000, 4000000),
+            "TestC05Decode": T(160000, 4000000),
             "FuzzC05Decode": FUZZ(60, configs=["default"]),
-            "TestC05Wide": T(30000, 3000000),
-            "TestC05Slices": T(6000, 400000),
-            "TestC05Unpacked": T(20000, 2000000),
+            "TestC05Wide": T(120000, 3000000),
+            "TestC05Slices": T(24000, 400000),
+            "TestC05Unpacked": T(80000, 2000000),
             "TestC05Lengths": LIST(),
         },
     }],
